@@ -52,6 +52,9 @@ def run_shard(prop, tier, seed, k, nshards, out_path):
     import signal
     import traceback
 
+    from vf import reach
+
+    reach.install()
     mod = load(prop)
     n = mod.n_cases(tier, seed)
     per_case = getattr(mod, "CASE_TIMEOUT", 120)
@@ -83,6 +86,7 @@ def run_shard(prop, tier, seed, k, nshards, out_path):
             r["wall"] = time.time() - t0
             out.write(json.dumps(r, default=evidence._default, ensure_ascii=False) + "\n")
             out.flush()
+    reach.dump(out_path + ".reach")
 
 
 def execute(prop, tier, seed, only_case=None):
@@ -112,6 +116,7 @@ def execute(prop, tier, seed, only_case=None):
             )
             procs.append((k, p, out_path))
         shard_fail = []
+        reach_hits = {}
         for k, p, out_path in procs:
             try:
                 so, _ = p.communicate(timeout=max(5, budget - (time.time() - t0)))
@@ -121,6 +126,9 @@ def execute(prop, tier, seed, only_case=None):
                 shard_fail.append(f"shard {k} exceeded the check budget of {budget}s")
             if p.returncode not in (0, None) and not shard_fail:
                 shard_fail.append(f"shard {k} exited {p.returncode}: {so[-800:]}")
+            if os.path.exists(out_path + ".reach"):
+                for rel, lines in json.load(open(out_path + ".reach")).items():
+                    reach_hits.setdefault(rel, set()).update(lines)
             if os.path.exists(out_path):
                 for line in open(out_path):
                     line = line.strip()
@@ -130,10 +138,11 @@ def execute(prop, tier, seed, only_case=None):
             results.append({"case": -1, "sig": "shard-failure", "evals": 0, "violations": [], "obs": {},
                             "inconclusive": msg})
     results.sort(key=lambda r: r["case"])
-    return verdict(mod, prop, tier, seed, results, time.time() - t0, n if only_case is None else 1)
+    return verdict(mod, prop, tier, seed, results, time.time() - t0, n if only_case is None else 1,
+                   reach_hits=None if only_case is not None else reach_hits)
 
 
-def verdict(mod, prop, tier, seed, results, wall, n_expected):
+def verdict(mod, prop, tier, seed, results, wall, n_expected, reach_hits=None):
     open_keys = findings.open_keys(prop)
     obs = collections.Counter()
     sigs = collections.Counter()
@@ -165,6 +174,13 @@ def verdict(mod, prop, tier, seed, results, wall, n_expected):
     for name in getattr(mod, "REQUIRED_OBS", ()):
         if obs.get(name, 0) <= 0:
             inconclusive.append(f"required monitor counter {name!r} stayed at zero")
+    reach_cov = None
+    if reach_hits is not None:
+        from vf import reach
+
+        reach_cov, dead = reach.summarise(reach_hits, reach.anchored_files(prop))
+        for a in dead:
+            inconclusive.append(f"no line inside any function of the anchored file {a} was executed by this workload")
     coverage = {
         "evaluations": evals,
         "distinct_nontrivial": len(sigs),
@@ -178,6 +194,8 @@ def verdict(mod, prop, tier, seed, results, wall, n_expected):
         "inconclusive_count": len(inconclusive),
         "verdict": "violated" if new_violations else ("inconclusive" if inconclusive else "held"),
     }
+    if reach_cov is not None:
+        coverage["reach"] = reach_cov
     if hasattr(mod, "finish"):
         extra = mod.finish(results, tier, seed) or {}
         for v in extra.pop("violations", []):
